@@ -6692,6 +6692,8 @@ fn eval_expr(
             if expr_state.done_subexpressions() {
                 let mut items: rpds::HashTrieMap<String, Value> = rpds::HashTrieMap::new();
                 let mut value_type = Type::no_value();
+                // Everything popped so far, most recent last.
+                let mut popped_values: Vec<Value> = vec![];
 
                 for kv in item_exprs {
                     // The evaluated value of key-value pair.
@@ -6707,11 +6709,13 @@ fn eval_expr(
                         .pop_value()
                         .expect("Value stack should have sufficient items for the dict literal");
 
+                    popped_values.push(value_value.clone());
+                    popped_values.push(key_value.clone());
+
                     let key_str = check_string(
                         &key_value,
                         &kv.key.position,
-                        // TODO: set saved_values properly here.
-                        vec![],
+                        popped_values.iter().rev().cloned().collect(),
                         env,
                     )?;
 
